@@ -1,6 +1,6 @@
 (* Tie of the C15 model (Model/Superop.v) to the current source: regenerated hashes and einsum
    subscript strings (Extracted/Src.v) against the ones the model was written for.  The path switch
-   `basis.btype == 'GGM' and basis.d > 12`, the `-(atol or basis._atol)` threshold, the stride
+   `basis.btype == 'GGM' and basis.d > 12 and basis.shape[0] == basis.d**2 and basis == Basis.ggm(basis.d)`, the `-(atol or basis._atol)` threshold, the stride
    `Omega[::d+1]` and the reshape are inside the hashed functions.                             *)
 From Coq Require Import ZArith String List.
 From FF Require Import Extracted.Src Model.Expected.
@@ -16,7 +16,8 @@ Example tie_C15_liouville_representation :
   /\ Src.h_basis_ggm_expand_cast = Expected.h_basis_ggm_expand_cast
   /\ einsum_basis_ggm_expand = ["...jj"]
   /\ Src.h_basis_Basis_ggm = Expected.h_basis_Basis_ggm
-  /\ Src.h_basis_Basis___array_finalize__ = Expected.h_basis_Basis___array_finalize__.
+  /\ Src.h_basis_Basis___array_finalize__ = Expected.h_basis_Basis___array_finalize__
+  /\ Src.h_basis_Basis___eq__ = Expected.h_basis_Basis___eq__.
 Proof. repeat split; reflexivity. Qed.
 
 Example tie_C15_choi_and_tests :
